@@ -615,6 +615,54 @@ func runSrvHTTP(ctx *Ctx) {
 			ctx.Res.Count("http.undecodable")
 		}
 	}
+	// 2b. the tree-mutation family of undecodable requests (srv_undec.go) in every content type: each
+	//     body arrives completely, is a well-formed document of its format and is no request - ONE
+	//     invalid-message item. (A member the format's decoder accepts as a request is no member there.)
+	if fam, ferr := undecFamily(); ferr != "" {
+		ctx.Res.Fail("srv.http: undecodable-request family: " + ferr)
+	} else {
+		for _, c := range codecs {
+			n := 0
+			for _, mb := range fam {
+				var body []byte
+				if c.mime == "application/octet-stream" {
+					body = mb.TTLV
+				} else {
+					func() {
+						defer func() { _ = recover() }()
+						body = c.marshal(mb.V)
+					}()
+					var back ttlv.Value
+					if body == nil || c.unmarshal(body, &back) != nil || c.unmarshal(body, &kmip.RequestMessage{}) == nil {
+						continue // not expressible in this format / not well-formed there / decodable there
+					}
+				}
+				n++
+				line := fmt.Sprintf("# srv.http %s undecodable=%s %x", c.mime, mb.Name, body)
+				ctx.current = line
+				rec, p := serve(line, c.mime, body)
+				impl := "ok"
+				if p != "" {
+					impl = "panic"
+					viol("no-crash", "panic "+panicKey(p), "ServeHTTP panicked on an undecodable body", line)
+				} else {
+					var resp kmip.ResponseMessage
+					if err := c.unmarshal(rec.Body.Bytes(), &resp); err != nil || rec.Code != http.StatusOK {
+						viol("invalid-message", "undecodable-not-answered", fmt.Sprintf("HTTP %d, body not a response message (%v)", rec.Code, err), line)
+					} else if len(resp.BatchItem) != 1 || resp.BatchItem[0].ResultStatus != kmip.ResultStatusOperationFailed {
+						viol("invalid-message", "undecodable-not-answered", fmt.Sprintf("%d items, status %v", len(resp.BatchItem), resp.BatchItem), line)
+					} else if r := resp.BatchItem[0].ResultReason; r != kmip.ResultReasonInvalidMessage {
+						viol("invalid-message", "undecodable-not-invalid-message", fmt.Sprintf("a request that arrived completely but cannot be decoded is answered with result reason %s, not Invalid Message", ttlv.EnumStr(r)), line)
+					}
+				}
+				ctx.Add(line, impl, true, "C08")
+				ctx.Res.Count("http.undecodable.family")
+			}
+			if n < len(fam)/2 {
+				ctx.Res.Fail(fmt.Sprintf("srv.http: only %d of the %d members of the undecodable-request family could be sent as %s", n, len(fam), c.mime))
+			}
+		}
+	}
 	// 3. transport-level refusals: no panic, an HTTP error status, no KMIP processing
 	good := kmip.NewRequestMessage(kmip.V1_4, &payloads.ActivateRequestPayload{UniqueIdentifier: "ok"})
 	gb := ttlv.MarshalTTLV(&good)
@@ -655,7 +703,7 @@ func runSrvHTTP(ctx *Ctx) {
 func init() {
 	register(&Engine{
 		Name: "srv.http",
-		Rule: "kmipserver.NewHTTPHandler(BatchExecutor).ServeHTTP called in process for the 3 content types x {every scripted handler outcome incl. poisoned error / panic values, 3 bodies that arrive completely but cannot be decoded (wrong structure, truncated, empty), 7 transport-level refusals}; oracles: no panic leaves ServeHTTP, one response message with one item carrying the request item's id, failed unless the handler succeeded; an undecodable body is answered with ONE item with result reason Invalid Message; refusals get an HTTP error status; impl-only lines (no model counterpart)",
+		Rule: "kmipserver.NewHTTPHandler(BatchExecutor).ServeHTTP called in process for the 3 content types x {every scripted handler outcome incl. poisoned error / panic values, 3 bodies that arrive completely but cannot be decoded (wrong structure, truncated, empty), the family of well-formed undecodable requests made by tree-level mutation of real requests (structure ends early at every depth / empty / element dropped / extra / repeated / wrong type / wrong tag / wrong root), 7 transport-level refusals}; oracles: no panic leaves ServeHTTP, one response message with one item carrying the request item's id, failed unless the handler succeeded; an undecodable body is answered with ONE item with result reason Invalid Message; refusals get an HTTP error status; impl-only lines (no model counterpart)",
 		Run:  runSrvHTTP,
 	})
 }
